@@ -558,9 +558,12 @@ def to_docstring(
         else "",
         returns=(
             "{returns}\n{sep}".format(
-                returns=param2docstring_param(
-                    next(iter(intermediate_repr["returns"].items())),
-                    emit_default_doc=emit_default_doc,
+                returns=(
+                    param2docstring_param(
+                        next(iter(intermediate_repr["returns"].items())),
+                        emit_default_doc=emit_default_doc,
+                    )
+                    or ""  # a return entry without prose (and without emitted type) renders as nothing
                 ).rstrip(),
                 sep=sep,
             )
